@@ -38,7 +38,7 @@ def flag_kind(it):
 
 def in_known_region(case):
     """P10: include_undocumented_cpp_class off and the module contains a documented cpp_class."""
-    has_doc_class = any(it["k"] == "class" and it.get("doc") for it, _, _ in G.walk(case["module"]["items"]))
+    has_doc_class = any(it["k"] == "class" and it.get("doc") for it, _, _ in G.walk(case["module"]["items"]))   # twins are undocumented
     return has_doc_class and any("cpp_class" in off for off in case["off"])
 
 
@@ -51,7 +51,7 @@ KNOWN = {"P10": {"region": in_known_region,
 
 def strategy(tier):
     p = G.Profile(max_items=7 if tier == "quick" else 10, depth=3, dangling=False, groups=False, moddoc=False, body_max=4,
-                  impl_doc=True, dups=3,
+                  impl_doc=True, dups=3, dup_classes=True,
                   weights={"class": 3, "test": 2, "func": 1, "generic": 1, "set": 1, "block": 1, "parseargs": 1})
     off = G.weighted((3, st.lists(st.sampled_from(KINDS), min_size=1, max_size=1)),
                      (3, st.lists(st.sampled_from(KINDS), min_size=1, max_size=4, unique=True)),
@@ -62,7 +62,9 @@ def strategy(tier):
                                           ["cpp_member", "cpp_constructor", "cpp_attr", "function", "macro"]])),
                      (1, st.lists(st.sampled_from(KINDS), min_size=5, max_size=10, unique=True)))
     return st.fixed_dictionaries({"module": G.module(p), "layout": G.layout_choices(16),
-                                  "off": st.lists(off, min_size=1, max_size=3 if tier == "quick" else 6)})
+                                  "off": st.lists(off, min_size=1, max_size=3 if tier == "quick" else 6),
+                                  # a class declared twice: first with undocumented members only, then with documented ones
+                                  "twin_class": st.sampled_from([None, None, "attr", "member", "ctor"])})
 
 
 def index_nodes(page):
@@ -96,9 +98,32 @@ def named_after(node, name):
     return node.arg.startswith(name + "(")
 
 
+def with_twin_class(module, kind):
+    """Appends `cpp_class(TwCls B)` holding one undocumented member of `kind`, then the same class again (same name and
+    bases, no doccomment) holding a documented attribute and a documented method."""
+    import copy
+    mod = copy.deepcopy(module)
+
+    def member(name, ctor, doc):
+        return {"k": "member", "ctor": ctor, "name": name, "cls": "TwCls", "types": ["int"], "doc": doc,
+                "impl": {"selfname": "self", "cmd": "function", "params": ["tw_a"], "body": []}}
+
+    def doc(tag):
+        return {"lines": [f"Twin text. TW{tag}DOCM"], "form": "leader", "marker": f"TW{tag}DOCM"}
+    first_body = [{"k": "attr", "cls": "TwCls", "name": "tw_plain", "extra": ["1"], "doc": None}] if kind == "attr" else \
+                 [member("tw_plain", kind == "ctor", None)]
+    second_body = [{"k": "attr", "cls": "TwCls", "name": "tw_documented_attr", "extra": [], "doc": doc("A")},
+                   member("tw_documented_method", False, doc("M"))]
+    for body in (first_body, second_body):
+        mod["items"].append({"k": "class", "name": "TwCls", "bases": ["TwBase"], "doc": None, "body": body})
+    return mod
+
+
 def evaluate(case):
     res = Result()
-    module = case["module"]
+    module = with_twin_class(case["module"], case["twin_class"]) if case.get("twin_class") else case["module"]
+    if case.get("twin_class"):
+        res.labels.append("class-declared-twice")
     src = R.render(module, case["layout"])
     base = document_text(src, real_settings(M.MSettings()))
     if base.exc is not None:
@@ -196,10 +221,12 @@ def evaluate(case):
         for n, _ in nodes1:
             if n.name == "py:class":
                 listed = [l for l in n.doc_lines() if l.startswith("* :class:")]
-                src_cls = next((it for it, _, _ in all_items if it["k"] == "class" and it["name"] == n.arg), None)
-                if src_cls is not None:
-                    inner_names = {c["name"] for c in src_cls["body"] if c["k"] == "class"} | \
-                                  {c["name"] for b in src_cls["body"] if b["k"] == "block" for c in b["body"] if c["k"] == "class"}
+                src_clss = [it for it, _, _ in all_items if it["k"] == "class" and it["name"] == n.arg]      # may be declared twice
+                if src_clss:
+                    inner_names = set()
+                    for src_cls in src_clss:
+                        inner_names |= {c["name"] for c in src_cls["body"] if c["k"] == "class"} | \
+                                       {c["name"] for b in src_cls["body"] if b["k"] == "block" for c in b["body"] if c["k"] == "class"}
                     for l in listed:
                         nm = l[len("* :class:`"):-1]
                         if nm not in inner_names:
@@ -254,4 +281,5 @@ def evaluate(case):
 
 
 def describe(case):
-    return {"off": case["off"], "source": R.render(case["module"], case["layout"])}
+    module = with_twin_class(case["module"], case["twin_class"]) if case.get("twin_class") else case["module"]
+    return {"off": case["off"], "source": R.render(module, case["layout"])}
